@@ -1,7 +1,7 @@
 (* C09 -- property theorems only: each is closed by [exact] of a lemma proved elsewhere. *)
 From Coq Require Import List Arith ZArith NArith PArith Permutation.
 From Muscle Require Import Cont.HtModel Cont.HtStep Cont.HtIdeal Cont.HtLemmas Cont.HtRepr Cont.HtWalk
-                           Cont.HtTable Cont.HtInv Cont.HtSafe Cont.HtSafeAll Cont.HtRefine Cont.HtPend Cont.HtTravW Cont.HtTravOps Cont.HtTravSem Cont.HtTravThm Cont.HtTravAny Cont.HtTravRefuted Cont.HtSorted Cont.HtSortedThm Cont.HtIdealLaws Cont.HtLaws Cont.HtClearModel Cont.HtClear Cont.HtStore Cont.HtStoreProofs Cont.HtStoreLink Gen.Consts.
+                           Cont.HtTable Cont.HtInv Cont.HtSafe Cont.HtSafeAll Cont.HtRefine Cont.HtPend Cont.HtTravW Cont.HtTravOps Cont.HtTravSem Cont.HtTravThm Cont.HtTravAny Cont.HtTravRefuted Cont.HtSorted Cont.HtSortedThm Cont.HtIdealLaws Cont.HtLaws Cont.HtClearModel Cont.HtClear Cont.HtStore Cont.HtStoreProofs Cont.HtStoreLink Cont.HtStoreOrder Gen.Consts.
 Import ListNotations.
 
 (* InsertIterationEntry is list insertion: if the links of h form the list l1 ++ l2 and e is an
@@ -330,6 +330,17 @@ Theorem C09_store_refines_l1 : forall var dcap (hashf : Z -> N) n ni ops, 0 < n 
   map out_val (outs1 var dcap (init_world dcap 1 ni) (map op_of_sop ops)).
 Proof. exact storage_refines_l1. Qed.
 Print Assumptions C09_store_refines_l1.
+
+(* ... and the order in which the storage layer re-inserts its entries when it reallocates ([r_order]) is
+   the iteration order of the plain Hashtable: after every history the pairs held by the slots of
+   [r_order] are the table's contents in iteration order (so EnsureSize rebuilds in iteration order
+   and the rebuilt array holds the same ordered map) *)
+Theorem C09_store_order_is_iteration_order : forall (hashf : Z -> N) dcap n ni ops, 0 < n ->
+  let r := st_run_state hashf (mkRun (st_create n) []) ops in
+  map (st_kv (slots (r_st r))) (r_order r) =
+  abs (gett (run1 VPlain dcap (init_world dcap 1 ni) (map op_of_sop ops)) 0).
+Proof. exact st_order_is_l1_order. Qed.
+Print Assumptions C09_store_order_is_iteration_order.
 
 (* non-vacuity: seven slots, every key in the same bucket; a Put whose starter slot is taken by another
    bucket (SwapEntryMaps), the removal of a bucket head with a successor, growth from 7 to 14 slots *)
